@@ -128,7 +128,24 @@ fn from_js_str_radix(src: JsStr<'_>, radix: u8) -> Option<f64> {
             result = result * u64::from(radix) + u64::from(to_digit(c, radix)?);
         }
         result as f64
+    } else if src.len() * (u8::BITS - (radix - 1).leading_zeros()) as usize <= u128::BITS as usize {
+        // `len * ceil(log2(radix)) <= 128`: the value fits in a `u128`, so accumulate exactly and
+        // round only once. Rounding at every step (as a float accumulation does) mis-rounds
+        // values above 2^53.
+        let mut result = 0u128;
+        for c in src {
+            result = result * u128::from(radix) + u128::from(to_digit(c, radix)?);
+        }
+        result as f64
+    } else if radix == 10 {
+        // Decimal digit strings must always be correctly rounded.
+        let text = src
+            .map(|c| to_digit(c, radix).map(|d| char::from(b'0' + d)))
+            .collect::<Option<String>>()?;
+        fast_float2::parse(text).unwrap_or(f64::INFINITY)
     } else {
+        // More than 20 significant digits in a non-decimal radix: the specification allows an
+        // implementation-approximated result.
         let mut result = 0f64;
         for c in src {
             result = result * f64::from(radix) + f64::from(to_digit(c, radix)?);
